@@ -554,6 +554,10 @@ Definition meth_ok (m : meth) : bool :=
   (* (b) no backend mention is reached when closed, except in the audited list *)
   && (match o with OBackend => in_list unguarded_backend_mentions (m_name m) | _ => true end).
 
+(* zip.go newZipReader :241-244 / tar.go newTarReader :37-40: the archive itself is refused (kind too-large) when the limits
+   apply and its size is STRICTLY above the maximum file size; an archive of exactly that size is served *)
+Definition open_refused (lim : option limits) (archive_size : Z) : bool := file_too_large lim archive_size.
+
 (* ------------------------------------------------------------------ Close (resource.go:23-34, files.go VFS.Close) *)
 (* (returned nil, closed flag set) as a function of whether closing the underlying archive file fails; an unrecognised
    shape is given the worst behaviour (reports success without setting the flag). *)
@@ -579,6 +583,7 @@ Inductive case :=
 | CRaw (es : list entry) (D : path) (lim : option limits) (res : ures) (flist : list path) (dump : list onode)
 | CView (k : vkind) (es : list entry) (ops : list (vop * path)) (obs : list vobs)
 | CClosed (meth_name : string) (obs : cobs)
+| COpen (lim : option limits) (archive_size : Z) (refused_too_large : bool)
 | CClose (underlying_fails : bool) (returned_nil : bool) (serves_nothing : bool).
 
 Definition ures_eqb (a b : ures) : bool :=
@@ -649,5 +654,6 @@ Definition check_case (c : case) : bool :=
   | CRaw es D lim res fl dump => check_unzip lim D es res fl dump
   | CView k es ops obs => vobs_list_eqb (view_run k (view_index k es) [] ops) obs
   | CClosed n o => check_closed n o
+  | COpen lim sz rf => Bool.eqb (open_refused lim sz) rf
   | CClose u rn sn => let '(a, b) := close_model u in Bool.eqb a rn && Bool.eqb b sn
   end.
